@@ -33,7 +33,7 @@ var reviverSrc = []string{
 func implC11(line string) string {
 	f := strings.Fields(line)
 	env := 0
-	if last := f[len(f)-1]; last == "e1" || last == "e2" {
+	if last := f[len(f)-1]; len(last) == 2 && last[0] == 'e' && last[1] >= '1' && last[1] <= '5' {
 		env = int(last[1] - '0')
 		f = f[:len(f)-1]
 	}
@@ -47,6 +47,23 @@ func implC11(line string) string {
 		}
 		return implParse(b, f[1])
 	case "str":
+		if env >= 3 {
+			// the observation includes the log of the toJSON reads and calls
+			b.takeLog.Call(otto.UndefinedValue())
+			out := implStr(b, f[1], f[2], f[3])
+			lv, err := b.takeLog.Call(otto.UndefinedValue())
+			if err != nil {
+				panic(err)
+			}
+			if strings.HasPrefix(out, "throw:") {
+				return out
+			}
+			var keys []string
+			for _, e := range nodeOf(lv).arr {
+				keys = append(keys, "k"+unitsHex(e.str))
+			}
+			return out + "#" + strings.Join(keys, ",")
+		}
 		return implStr(b, f[1], f[2], f[3])
 	}
 	return "bad-op"
@@ -764,6 +781,25 @@ func genC11(c *h.Ctx) {
 			}
 			c.Add("str "+sb.String()+" "+rt+" "+g.spaceTok()+" "+e, "env:str")
 		}
+	}
+	// toJSON on the wrapper prototypes (e3 method, e4 logging getter) and on Object.prototype (e5):
+	// primitives of every kind, wrapper objects, plain objects, arrays, functions, own toJSON
+	for _, e := range []string{"e3", "e4", "e5"} {
+		for _, v := range []string{"S0061.", "D3ff0000000000000", "T", "F", "N", "U", "X", "BS0061.", "BD3ff0000000000000", "BT", "AS0061.D4000000000000000TNU]", "O006b.S0062.006e.D4000000000000000}", "AS0061.O006b.S0062.}]", "ABS0061.BD4000000000000000BFO0061.BT}]", "JS0078.", "JBS0078.", "AJABS0079.]]", "WD3ff0000000000000rD4045000000000000i", "O0061.H0062.BD3ff00000000000000062.T}", "A]", "O}"} {
+			c.Add("str "+v+" - - "+e, "tojson:fixed")
+			c.Add("str "+v+" - D4000000000000000 "+e, "tojson:fixed")
+		}
+	}
+	for i := 0; i < c.N(1500, 60000); i++ {
+		var sb strings.Builder
+		g.svTok(3, 0, &sb)
+		e := []string{"e3", "e4", "e5"}[c.Rng.Intn(3)]
+		if e == "e5" && strings.Contains(sb.String(), "JJ") {
+			// an object whose own toJSON is NOT called is serialised as {toJSON: function}; under e5 that
+			// function inherits Object.prototype.toJSON — the tree model has no such member
+			e = "e3"
+		}
+		c.Add("str "+sb.String()+" - "+g.spaceTok()+" "+e, "tojson:random")
 	}
 	// getters that make a sibling non-enumerable while the object is serialised
 	for _, v := range []string{"O0061.H0062.D3ff00000000000000062.D4000000000000000}", "O0062.D40000000000000000061.H0062.D3ff0000000000000}", "O0061.H0063.AT]0062.N0063.S0078.}", "AH0062.NT]", "O0061.O0061.H0062.N0062.T}0062.F}", "O0061.H0061.N}"} {
